@@ -266,7 +266,6 @@ func ghostFindInBytesGo2(leaf []byte, keyhash uint64) int {
 // reachable through exactly one SliceHeader object (header copies, as in HTree.dump, are not covered).
 const ghostLeafCap = 1 << 40
 
-
 var ghostLeafMem func(sh *SliceHeader) *[ghostLeafCap]byte
 
 // what InitTree establishes for the leaf layout (klen = 5..8 are the values in KHASH_LENS)
